@@ -77,9 +77,10 @@ func must(err error) {
 // =====================================================================================================
 
 type rop struct {
-	Kind   string   `json:"kind"` // assign | read | ckpt | settle
-	Splits [][2]int `json:"splits,omitempty"`
-	Batch  [][2]int `json:"batch,omitempty"`
+	Kind   string     `json:"kind"` // assign | read | ckpt | settle
+	Splits [][2]int   `json:"splits,omitempty"`
+	Batch  [][2]int   `json:"batch,omitempty"`
+	Rounds [][][2]int `json:"rounds,omitempty"` // burst: assignment rounds issued while a read is parked at the gate
 }
 
 type ssplit struct{ id, cursor int }
@@ -265,7 +266,7 @@ func waitLimit() time.Duration {
 }
 
 func genRunner(r *hx.Rand, tier string) *hx.Case {
-	nsplits := r.Range(1, 4)
+	nsplits := r.Range(1, 7)
 	nops := r.Range(1, 4)
 	p := map[string]any{"mode": "runnerpos", "operators": nops, "kg": r.Range(nops, 16), "max_size": r.Range(1, 4), "delay_ms": r.Range(1, 3), "salt": r.Intn(11)}
 	var ops []json.RawMessage
@@ -290,7 +291,7 @@ func genRunner(r *hx.Rand, tier string) *hx.Case {
 	if r.Chance(1, 8) {
 		ops = append(ops, hx.Op(rop{Kind: "ckpt"})) // checkpoint before anything is assigned
 	}
-	assign(r.Range(1, nsplits))
+	assign(r.Range(1, (nsplits+1)/2))
 	n := r.Range(3, 14)
 	if tier == "thorough" {
 		n = r.Range(3, 30)
@@ -306,13 +307,36 @@ func genRunner(r *hx.Rand, tier string) *hx.Case {
 			}
 			hx.Shuffle(r, b)
 			ops = append(ops, hx.Op(rop{Kind: "read", Batch: b}))
-		case x < 8:
+		case x < 7:
 			ops = append(ops, hx.Op(rop{Kind: "ckpt"}))
-		case x < 9:
+		case x < 8:
 			ops = append(ops, hx.Op(rop{Kind: "settle"}))
-		default:
+		case x < 9:
 			if len(pending) > 0 {
 				assign(1)
+			} else {
+				ops = append(ops, hx.Op(rop{Kind: "ckpt"}))
+			}
+		default:
+			// two or three assignment rounds (as discovery ticks of a splitter produce) while a read is in progress
+			if len(pending) >= 2 {
+				var rounds [][][2]int
+				for k := r.Range(2, 3); k > 0 && len(pending) > 0; k-- {
+					c := 0
+					if r.Chance(1, 3) {
+						c = r.Range(1, 50)
+					}
+					rounds = append(rounds, [][2]int{{pending[0], c}})
+					assigned = append(assigned, pending[0])
+					pending = pending[1:]
+				}
+				var b [][2]int
+				for _, s := range assigned {
+					if r.Chance(1, 2) {
+						b = append(b, [2]int{s, r.Intn(4)})
+					}
+				}
+				ops = append(ops, hx.Op(rop{Kind: "burst", Rounds: rounds, Batch: b}))
 			} else {
 				ops = append(ops, hx.Op(rop{Kind: "ckpt"}))
 			}
@@ -338,7 +362,7 @@ func execRunner(c *hx.Case) (*hx.Result, error) {
 	kg := pint(c, "kg", 8)
 	var log, reports []string
 	nread, nrec := 0, 0
-	rd := &sreader{atRead: make(chan struct{}), cmd: make(chan [][2]int), closed: make(chan struct{}), assigned: make(chan struct{}, 4), atCkpt: make(chan struct{}), ckptRelease: make(chan struct{}), log: &log, nread: &nread}
+	rd := &sreader{atRead: make(chan struct{}), cmd: make(chan [][2]int), closed: make(chan struct{}), assigned: make(chan struct{}, 64), atCkpt: make(chan struct{}), ckptRelease: make(chan struct{}), log: &log, nread: &nread}
 	job := &rjob{log: &log, reports: &reports, done: make(chan struct{}, 4)}
 	mu := &sync.Mutex{}
 	cond := sync.NewCond(mu)
@@ -440,6 +464,8 @@ func execRunner(c *hx.Case) (*hx.Result, error) {
 		return waitFor(job.done) && waitFor(called)
 	}
 	nck, nreadsWithData := 0, 0
+	var acked []string
+	nAckedRounds, nDelivered, nbursts := 0, 0, 0
 	for _, raw := range c.Ops {
 		var op rop
 		if err := json.Unmarshal(raw, &op); err != nil {
@@ -462,9 +488,122 @@ func execRunner(c *hx.Case) (*hx.Result, error) {
 				continue
 			}
 			must(sr.HandleAssignSplits(sp))
+			for _, x := range sp {
+				c := 0
+				if len(x.Cursor) > 0 {
+					c, _ = strconv.Atoi(string(x.Cursor))
+				}
+				id, _ := strconv.Atoi(x.SplitId)
+				acked = append(acked, hx.CoqPair(hx.CoqN(uint64(id)), hx.CoqN(uint64(c))))
+			}
+			nAckedRounds++
 			if !waitFor(rd.assigned) {
 				complete = false
+			} else {
+				nDelivered++
 			}
+			started = true
+		case "burst":
+			// several assignment rounds for this runner while its loop is inside a (slow) read: the first fills the
+			// one-slot channel, the others are issued from goroutines (the real blocking send parks them until the
+			// loop takes the slot); then the read returns its batch and the loop works the rounds off.
+			var rounds [][]*workerpb.SourceSplit
+			var roundTerms [][]string
+			seenInBurst := map[int]bool{}
+			for _, rd0 := range op.Rounds {
+				var sp []*workerpb.SourceSplit
+				var tm []string
+				for _, x := range rd0 {
+					if rd.find(x[0]) != nil || seenInBurst[x[0]] {
+						continue
+					}
+					seenInBurst[x[0]] = true
+					var cur []byte
+					if x[1] > 0 {
+						cur = []byte(strconv.Itoa(x[1]))
+					}
+					sp = append(sp, &workerpb.SourceSplit{SplitId: strconv.Itoa(x[0]), SourceId: "x", Cursor: cur})
+					tm = append(tm, hx.CoqPair(hx.CoqN(uint64(x[0])), hx.CoqN(uint64(x[1]))))
+				}
+				if len(sp) > 0 {
+					rounds = append(rounds, sp)
+					roundTerms = append(roundTerms, tm)
+				}
+			}
+			if len(rounds) == 0 {
+				continue
+			}
+			parked := false
+			if started {
+				select {
+				case <-rd.atRead:
+					parked = true
+				case <-timeout():
+					complete = false
+				}
+			}
+			if !complete {
+				break
+			}
+			ackCh := make(chan int, len(rounds))
+			pendingAcks := 0
+			for i, sp := range rounds {
+				about := make(chan struct{})
+				pendingAcks++
+				go func() {
+					close(about)
+					if err := sr.HandleAssignSplits(sp); err == nil {
+						ackCh <- i
+					} else {
+						ackCh <- -1
+					}
+				}()
+				<-about
+				// give the call the moment it needs to either return or park in its channel send (a bounded wait
+				// that only sharpens the regime; no verdict depends on it)
+				select {
+				case j := <-ackCh:
+					pendingAcks--
+					if j >= 0 {
+						acked = append(acked, roundTerms[j]...)
+						nAckedRounds++
+					}
+				case <-time.After(300 * time.Microsecond):
+				}
+			}
+			if parked {
+				rd.cmd <- op.Batch
+				nreadsWithData++
+			}
+			got, empties := 0, 0
+			to := timeout()
+		drain:
+			for got < nAckedRounds-nDelivered || pendingAcks > 0 {
+				select {
+				case <-rd.assigned:
+					got++
+				case j := <-ackCh:
+					pendingAcks--
+					if j >= 0 {
+						acked = append(acked, roundTerms[j]...)
+						nAckedRounds++
+					}
+				case <-rd.atRead:
+					rd.cmd <- nil
+					if pendingAcks == 0 {
+						// the loop picks between a full assignment slot and the next read at random: 64 reads in a
+						// row with a round still waiting do not happen unless the round was dropped
+						if empties++; empties > 64 {
+							break drain
+						}
+					}
+				case <-to:
+					complete = false
+					break drain
+				}
+			}
+			nDelivered += got
+			nbursts++
 			started = true
 		case "read":
 			if !started {
@@ -537,15 +676,18 @@ func execRunner(c *hx.Case) (*hx.Result, error) {
 		}
 	}
 	mu.Unlock()
-	term := fmt.Sprintf("CRunner %s %s %s %s", hx.CoqList(log, "step"), hx.CoqList(reports, "N * list (N * N)"), hx.CoqList(streams, "list ev"), hx.CoqBool(complete))
+	term := fmt.Sprintf("CRunner %s %s %s %s %s", hx.CoqList(log, "step"), hx.CoqList(reports, "N * list (N * N)"), hx.CoqList(streams, "list ev"), hx.CoqBool(complete), hx.CoqList(acked, "N * N"))
 	tags := []string{fmt.Sprintf("operators=%d", nops), fmt.Sprintf("ckpts=%d", min(nck, 6)), fmt.Sprintf("records<=%d", (nread/10+1)*10), fmt.Sprintf("max_size=%d", pint(c, "max_size", 2))}
 	if cutBoth {
 		tags = append(tags, "cut_with_records_both_sides")
 	}
+	if nbursts > 0 {
+		tags = append(tags, "assignment_burst_during_read")
+	}
 	if !complete {
 		tags = append(tags, "incomplete")
 	}
-	return &hx.Result{Term: "(" + term + ")", Nontrivial: cutBoth, Tags: tags, Observed: map[string]any{"steps": log, "reports": reports, "streams": streams, "complete": complete}}, nil
+	return &hx.Result{Term: "(" + term + ")", Nontrivial: cutBoth, Tags: tags, Observed: map[string]any{"steps": log, "reports": reports, "streams": streams, "complete": complete, "acked": acked}}, nil
 }
 
 // =====================================================================================================
